@@ -918,6 +918,13 @@ func (p *Parser) isQuantifier() bool {
 	return false
 }
 
+// keywordSpelling returns the canonical (upper-case) spelling of the keyword token the parser is
+// looking at. SQL keywords are case-insensitive: what is stored in the tree for a keyword must not
+// depend on the letter case it was written in (AND / and / And are the same operator).
+func (p *Parser) keywordSpelling() string {
+	return strings.ToUpper(p.currentToken.Literal)
+}
+
 // isBooleanLiteral checks if the current token is TRUE or FALSE using O(1) switch.
 func (p *Parser) isBooleanLiteral() bool {
 	switch p.currentToken.Type {
